@@ -52,8 +52,21 @@ func c14Decode(b []byte) string {
 	return ""
 }
 
+// c14ForeignRecords: what the second exporter of an Interleave configuration exports (other content, other size).
+func c14ForeignRecords() []sdklog.Record {
+	t0 := time.Unix(1800000000, 0)
+	var rs []sdklog.Record
+	for i := 0; i < 3; i++ {
+		rs = append(rs, logtest.RecordFactory{
+			Timestamp: t0, ObservedTimestamp: t0, Severity: log.SeverityError, Body: log.StringValue("c14-record-of-the-other-exporter"),
+		}.NewRecord())
+	}
+	return rs
+}
+
 func TestVerifC14(t *testing.T) {
 	recs := c14Records()
+	foreign := c14ForeignRecords()
 	verifc14.Run(t, verifc14.Target{
 		Name:          "otlploghttp",
 		HTTP:          true,
@@ -68,7 +81,11 @@ func TestVerifC14(t *testing.T) {
 			if c.Gzip {
 				comp = GzipCompression
 			}
-			cfg := newConfig([]Option{WithInsecure(), WithEndpoint("c14.invalid:4318"), WithCompression(comp),
+			host, payload := "c14.invalid:4318", recs
+			if c.Foreign {
+				host, payload = verifc14.ForeignHost, foreign
+			}
+			cfg := newConfig([]Option{WithInsecure(), WithEndpoint(host), WithCompression(comp),
 				WithRetry(RetryConfig{Enabled: c.Enabled, InitialInterval: c.Initial, MaxInterval: c.MaxInterval, MaxElapsedTime: c.MaxElapsed})})
 			u := &url.URL{Scheme: "http", Host: cfg.endpoint.Value, Path: cfg.path.Value}
 			req, err := http.NewRequest(http.MethodPost, u.String(), http.NoBody)
@@ -87,7 +104,7 @@ func TestVerifC14(t *testing.T) {
 			if err != nil {
 				panic(err)
 			}
-			return c14Exporter{e: e, recs: recs}
+			return c14Exporter{e: e, recs: payload}
 		},
 	})
 }
